@@ -39,7 +39,7 @@ K1_C08 = ['SdElement.generate_function', 'SdElement.Element.equation.setter', 'S
           'Scenario.reset_cache', 'Model.reset_cache', 'Model.memoize']
 
 K1_C07 = ['ScenarioManagerSd.add_scenarios', 'SdScenario.__init__', 'SdScenario.configure_settings', 'SdSimulation.__init__', 'SdSimulation.change_runspecs',
-          'SdSimulation.change_equation', 'SdSimulation.change_points', 'SdRunner.run_scenario_step']
+          'SdSimulation.change_equation', 'SdSimulation.change_points']
 _SCEN_ASSUME = ['scenario lookup (ScenarioManagerFactory.get_scenarios) returns live scenario objects owning distinct models (assumed contract)',
                 'SdSimulation.start simulates with the model\'s current run spec (assumed here; its pieces are under contract in C05)',
                 'values of constants / points are opaque (ANY): the contracts speak about WHICH entries are replaced, not about evaluating the lambdas',
@@ -51,8 +51,7 @@ PROPS = {
         harness='verif/native/c09_harness.py', harness_budget=(25, 120),
         explanation='functional contract per hop of the settings channels: SimulationScenario.__init__ / configure_settings (dictionary -> constants, '
                     'points, run specs; own values win key by key), SdSimulation.__init__/change_equation/change_points/change_runspecs (the integrating model '
-                    'gets exactly the scenario\'s start, stop and dt), SdRunner.run_scenario_step (every addressed scenario ends with a live simulation on '
-                    'its own model carrying its run spec; the runner writes no scenario setting)',
+                    'gets exactly the scenario\'s start, stop and dt), the step runner itself is under contract in C09)',
         assumptions=_SCEN_ASSUME,
         not_decided=['not decided: the file channel (ScenarioManagerFactory.__readScenario, JSON/YAML parsers, base constants spread over files): file-system driven, unverified',
                      'not decided: SdRunner._run_scenarios (batch path) -- exercised by the native harness only']),
@@ -69,13 +68,13 @@ PROPS = {
         not_decided=['not decided: bptk.begin_session / session_results re-indexing and the REST handlers as functions (deep dynamic dict code): reached by the native harness only',
                      'not decided: pandas / json agreement of the three batch formats (library code)']),
     'C06': dict(
-        mods=['contracts.c07_scenarios'], k1=['ScenarioManagerSd.add_scenarios', 'SdRunner.run_scenario_step', 'SdSimulation.change_equation', 'SdSimulation.change_points',
+        mods=['contracts.c07_scenarios'], k1=['ScenarioManagerSd.add_scenarios', 'SdSimulation.change_equation', 'SdSimulation.change_points',
                                              'SdSimulation.change_runspecs', 'SdScenario.__init__'],
         level='proof', engines=['contracts.c06_clone'],
         harness='verif/native/c09_harness.py', harness_budget=(25, 120),
         explanation='separation + frames: get_cloned_model returns a new Model that installs none of the base model\'s mutable containers (structural obligations '
                     'from the AST); change_equation / change_points / change_runspecs write only the fields of their own simulation model (frame proved); '
-                    'run_scenario_step writes no scenario setting and, for distinct models, leaves the run spec of every other scenario untouched',
+                    '(the step runner\'s frame is proved under C09)',
         assumptions=_SCEN_ASSUME,
         not_decided=['not decided: "results equal those of a freshly built model" as a relation (C07 spine + harness)',
                      'not decided: sharing through mutable default arguments between managers; arrayed elements share _elements with the base element']),
